@@ -81,6 +81,7 @@ func c04family(thorough bool, add func(cfg *Config, bound int, maxExec int64, or
 	}
 	hsets = append(hsets, map[string]string{"onSuccess": "fail", "onFailure": "fail", "onCancel": "fail", "onExit": "fail"})
 	scripts := []scriptT{scriptsFull[0], scriptsFull[1], scriptsFull[2]}
+	withRetry := []scriptT{scriptsFull[0], scriptsFull[1], scriptsFull[3]}
 	maxN := 2
 	if thorough {
 		maxN = 3
@@ -100,5 +101,23 @@ func c04family(thorough bool, add func(cfg *Config, bound int, maxExec int64, or
 				}
 			}
 		})
+		if n == 2 {
+			// a retried step next to steps that fail: the outcome of the run must still reflect every step
+			full := map[string]string{"onSuccess": "ok", "onFailure": "ok", "onCancel": "ok", "onExit": "ok"}
+			programs(famOpts{n: n, scripts: withRetry, maxActive: []int{0}, delays: []int{0}, intervalMs: 1000, coAll: false}, func(c *Config) {
+				hasRetry := false
+				for _, s := range c.Steps {
+					if s.HasRetry {
+						hasRetry = true
+					}
+				}
+				if !hasRetry {
+					return
+				}
+				cc := *c
+				cc.Handlers = full
+				add(&cc, 0, 0, "C04")
+			})
+		}
 	}
 }
